@@ -26,7 +26,8 @@ static struct plan *G;
 /* ---- C17: pump ------------------------------------------------------------------------------- */
 static void gen_pump(int tier)
 {
-	int npumps = 1 + (P(30) ? 1 + R(2) : 0), i, big = tier > 0, prod, cons;
+	int many = P(6);	/* more pumps holding a buffer at once than the library's per-thread buffer cache takes */
+	int npumps = many ? 21 + R(6) : 1 + (P(30) ? 1 + R(2) : 0), i, big = tier > 0, prod, cons;
 
 	gx_common_cfg(3);
 	G->cfg.max_steps = 1500000;
@@ -47,6 +48,28 @@ static void gen_pump(int tier)
 		int a = gx_add_obj(K_CHAN, -1), b = gx_add_obj(K_CHAN, -1), pu = gx_add_obj(K_PUMP, 0);
 		long total = P(10) ? 0 : P(60) ? 1 + R(20000) : 1 + R(big ? 300000 : 120000), sent = 0;
 		int n;
+		if (many) {
+			/* a small back-pressured stream each: the output pipe is 4 KiB, the consumer shows up late */
+			total = 5000 + R(3000);
+			G->obj[a].p[0] = 0;
+			G->obj[b].p[0] = 0;
+			G->obj[b].p[1] = 4096;
+			G->obj[a].p[2] = 1 + (int64_t)(gx_u64() % 1000000007ULL);
+			G->obj[b].p[2] = G->obj[a].p[2];
+			G->obj[pu].p[0] = a; G->obj[pu].p[1] = 0;
+			G->obj[pu].p[2] = b; G->obj[pu].p[3] = 1;
+			G->obj[pu].p[4] = P(60);
+			gx_add_op(CTX_SETUP, 0, 0, OP_REG, pu, 0, 0, 0);
+			gx_add_op(CTX_DRV, prod, 0, OP_PRODUCE, a, 1, 4096, 0);
+			gx_add_op(CTX_DRV, prod, 0, OP_PRODUCE, a, 1, total - 4096, 0);
+			gx_add_op(CTX_DRV, prod, 0, OP_CLOSE, a, 1, 0, 0);
+			if (i == 0)
+				gx_add_op(CTX_DRV, cons, 0, OP_SLEEP, 0, 2000000000LL, 0, 0);
+			gx_add_op(CTX_DRV, cons, 0, OP_CONSUME, b, 0, 65536, 0);
+			gx_add_op(CTX_DRV, cons, 0, OP_SLEEP, 0, 1000000, 0, 0);
+			gx_add_op(CTX_DRV, cons, 0, OP_CONSUME, b, 0, 65536, 0);
+			continue;
+		}
 		G->obj[a].p[0] = P(50) ? 0 : 1;	/* pipe or socketpair */
 		G->obj[b].p[0] = P(50) ? 0 : 1;
 		if (G->obj[a].p[0] == 0 && P(30)) G->obj[a].p[1] = 4096;
